@@ -3,6 +3,7 @@ package main
 import (
 	"fmt"
 	"go/types"
+	"sort"
 	"strings"
 
 	"golang.org/x/tools/go/ssa"
@@ -254,6 +255,10 @@ func (e *Engine) paramNames(c *Contract, sig *types.Signature, invoke bool) []st
 
 func (e *Engine) callByContract(fr *Frame, st *State, ins ssa.Instruction, c *Contract, key string, cc *ssa.CallCommon, args []Val, resType types.Type, invoke bool) (Val, []*State) {
 	e.usedSpecs[key] = true
+	e.curCallee = nil
+	if !invoke {
+		e.curCallee = cc.StaticCallee()
+	}
 	sig := cc.Signature()
 	var fullSig *types.Signature = sig
 	var ptypes []types.Type
@@ -356,7 +361,7 @@ func (e *Engine) applyContract(fr *Frame, st *State, ins ssa.Instruction, c *Con
 	for _, sc := range c.Sets {
 		// ghost assignment at exit: value computed over the post-state of the Go heap and the pre-state of ghosts named old()
 		// the assigned value is computed over the state in which the callee was entered (its inputs) and the results
-		env := &SpecEnv{e: e, pre: old, post: old, vars: vars, pkg: pkg, allocBefore: allocBefore}
+		env := &SpecEnv{e: e, pre: old, post: old, vars: vars, pkg: pkg, allocBefore: allocBefore, exit: st}
 		v := env.eval(sc.E)
 		g := e.db.Ghosts[sc.Ghost]
 		if g == nil {
@@ -403,6 +408,39 @@ func countRefs(t types.Type) int {
 	return n
 }
 
+// ghostNames expands `ghosts` / `ghosts except A | B` into the ghost variables meant.
+func (e *Engine) ghostNames(item string) []string {
+	skip := map[string]bool{}
+	if strings.HasPrefix(item, "ghosts except ") {
+		for _, g := range strings.Split(strings.TrimPrefix(item, "ghosts except "), "|") {
+			g = strings.TrimSpace(g)
+			if _, ok := e.db.Ghosts[g]; !ok {
+				unsupp("modifies ghosts except %s: no such ghost variable", g)
+			}
+			skip[g] = true
+		}
+	}
+	var out []string
+	for name := range e.db.Ghosts {
+		if !skip[name] {
+			out = append(out, name)
+		}
+	}
+	sort.Strings(out)
+	return out
+}
+
+// exceptTypes splits the type list of a `* except T1 | T2` modifies item.
+func exceptTypes(item string) []string {
+	var out []string
+	for _, t := range strings.Split(strings.TrimPrefix(strings.TrimSpace(item), "* except "), "|") {
+		if t = strings.TrimSpace(t); t != "" {
+			out = append(out, t)
+		}
+	}
+	return out
+}
+
 // havocItem havocs one item of a modifies clause.
 //
 //	Ghost                ghost variable
@@ -415,47 +453,52 @@ func (e *Engine) havocItem(st *State, env *SpecEnv, item string) {
 	item = strings.TrimSpace(item)
 	switch {
 	case item == "*":
+		restore := e.spareForCallee(st, e.curCallee)
 		st.havocAll()
+		restore()
 		return
 	case item == "big":
 		st.havocKey("BigVal")
 		return
 	case strings.HasPrefix(item, "* except "):
 		// everything on the Go heap except the fields of objects of one named struct type (pkg.Type)
-		tn := strings.TrimSpace(strings.TrimPrefix(item, "* except "))
-		i := strings.LastIndex(tn, ".")
-		if i < 0 {
-			unsupp("modifies * except pkg.Type")
-		}
-		T := e.lookupType(tn[:i], tn[i+1:], nil)
-		if T == nil {
-			unsupp("modifies * except %s: type not found", tn)
-		}
-		prefix := "F:" + typeKey(T) + "."
 		keepH := map[string]*Term{}
 		keepV := map[string]int{}
-		for k, v := range st.heap {
-			if strings.HasPrefix(k, prefix) {
-				keepH[k] = v
+		for _, tn := range exceptTypes(item) {
+			i := strings.LastIndex(tn, ".")
+			if i < 0 {
+				unsupp("modifies * except pkg.Type")
 			}
-		}
-		for k, v := range st.hv {
-			if strings.HasPrefix(k, prefix) {
-				keepV[k] = v
+			T := e.lookupType(tn[:i], tn[i+1:], nil)
+			if T == nil {
+				unsupp("modifies * except %s: type not found", tn)
 			}
-		}
-		// fields of that type not read yet on this path must keep their pre-call symbol as well: touch them first
-		for _, l := range leaves(T) {
-			k := fieldKey(T, l.path)
-			if _, ok := keepH[k]; !ok {
-				noteLeaf(k, l)
-				keepH[k] = st.heapGet(k, arrSort(SInt, l.sort))
-				if id, ok := st.hv[k]; ok {
-					keepV[k] = id
+			prefix := "F:" + typeKey(T) + "."
+			for k, v := range st.heap {
+				if strings.HasPrefix(k, prefix) {
+					keepH[k] = v
+				}
+			}
+			for k, v := range st.hv {
+				if strings.HasPrefix(k, prefix) {
+					keepV[k] = v
+				}
+			}
+			// fields of that type not read yet on this path must keep their pre-call symbol as well: touch them first
+			for _, l := range leaves(T) {
+				k := fieldKey(T, l.path)
+				if _, ok := keepH[k]; !ok {
+					noteLeaf(k, l)
+					keepH[k] = st.heapGet(k, arrSort(SInt, l.sort))
+					if id, ok := st.hv[k]; ok {
+						keepV[k] = id
+					}
 				}
 			}
 		}
+		restore := e.spareForCallee(st, e.curCallee)
 		st.havocAll()
+		restore()
 		for k, v := range keepH {
 			st.heap[k] = v
 		}
@@ -469,9 +512,9 @@ func (e *Engine) havocItem(st *State, env *SpecEnv, item string) {
 			st.havocKey(k)
 		}
 		return
-	case item == "ghosts":
-		// every declared ghost variable (model-internal G:$... ghosts are left alone)
-		for name := range e.db.Ghosts {
+	case item == "ghosts" || strings.HasPrefix(item, "ghosts except "):
+		// every declared ghost variable (model-internal G:$... ghosts are left alone), minus those excepted
+		for _, name := range e.ghostNames(item) {
 			st.havocKey("G:" + name)
 		}
 		return
@@ -574,7 +617,9 @@ func (e *Engine) havocItem(st *State, env *SpecEnv, item string) {
 					}
 				}
 			} else {
+				restore := e.spareForCallee(st, e.curCallee)
 				st.havocAll()
+				restore()
 			}
 		default:
 			unsupp("modifies item %q", item)
